@@ -86,6 +86,9 @@ def run(facts, chk, tier, only=None):
     from . import cli_more
     chk.guard('C11.cli', 'C11.cli:run0', lambda: cli_more.check_seq_inputs(facts, chk, 'C11.cli', tier, 'align'))
     chk.guard('C11.cli', 'C11.cli:run1', lambda: cli_more.check_seq_inputs(facts, chk, 'C11.cli', tier, 'map'))
+    # ska build of 12 / 32 samples with --threads 1 / 2 / 4 through main(): the merge recursion reaches depth 0, 1 and 2
+    from . import cli_more2
+    chk.guard('C11.cli', 'C11.cli:run2', lambda: cli_more2.check_build_parallel(facts, chk, 'C11.cli', tier))
     main = facts.fn('main')
     # ---------------------------------------------------------------- pool
     def pool():
